@@ -262,3 +262,77 @@ def certify_nonpos(p, depth=12):
         stack.append((l, lo, mid, d + 1))
         stack.append((r, mid, hi, d + 1))
     return ('inconclusive', None) if inconclusive else ('yes', None)
+
+
+# ---------------------------------------------------------------- paths in exact arithmetic
+
+def path_segments(els):
+    """els: list of ('M',(x,y)) ('L',(x,y)) ('Q',(x,y),(x,y)) ('C',..) ('Z',) -> list of control-point lists (kurbo's
+    Segments semantics: ClosePath adds the closing line iff last != start)"""
+    segs = []
+    start = last = None
+    for el in els:
+        k = el[0]
+        if k == 'M':
+            start = last = el[1]
+        elif k == 'Z':
+            if last != start:
+                segs.append([last, start])
+            last = start
+        else:
+            if last is None:
+                start = last = el[-1]
+            segs.append([last] + list(el[1:]))
+            last = el[-1]
+    return segs
+
+
+def coord_range_exact(p):
+    """(min, max) of polynomial p on [0,1] as floats (critical points isolated exactly, evaluated exactly)"""
+    cands = [Fr(0), Fr(1)]
+    d = pderiv(p)
+    if d:
+        for lo, hi in isolate_roots(d, Fr(0), Fr(1), Fr(1, 2 ** 70)):
+            cands.append((lo + hi) / 2)
+    vals = [peval(p, t) for t in cands]
+    return min(vals), max(vals)
+
+
+def winding_exact(els, q, eta):
+    """topological winding number (kurbo's sign convention) of the closed path `els` about the point q, computed on the
+    generic row y = q.y + eta (legitimate when q is farther than eta from the path).  Returns None if the row is not generic."""
+    qx, qy = Fr(q[0]), Fr(q[1]) + Fr(eta)
+    w = 0
+    for pts in path_segments(els):
+        px, py = seg_polys(pts)
+        f = padd(py, [-qy])
+        if not f:
+            return None          # horizontal segment exactly on the row
+        if peval(f, Fr(0)) == 0 or peval(f, Fr(1)) == 0:
+            return None
+        df = pderiv(f)
+        for lo, hi in isolate_roots(f, Fr(0), Fr(1), Fr(1, 2 ** 70)):
+            t = (lo + hi) / 2
+            dy = peval(df, t) if df else Fr(0)
+            if dy == 0:
+                # tangential touch or derivative sign unclear at the midpoint: decide by the end values of f on the interval
+                s = sign(peval(f, hi)) - sign(peval(f, lo))
+                if s == 0:
+                    continue
+                dy = s
+            x = peval(px, t)
+            if x < qx:
+                w += -1 if dy > 0 else 1
+    return w
+
+
+def dist2_point_path_lower_bound(els, q):
+    """min over segments of the (approximately exact) squared distance from q to the segment"""
+    best = None
+    for pts in path_segments(els):
+        if len(pts) == 2:
+            d = dist2_point_seg_exact(q, pts[0], pts[1])
+        else:
+            d, _ = min_dist2_point_curve(q, pts, Fr(1, 2 ** 40))
+        best = d if best is None or d < best else best
+    return best
